@@ -217,3 +217,75 @@ package helper
 //@     invariant !gAsOk && !gStOk && !gUpFailed
 //@     invariant [C17] removed: forall k string :: {V[k]} V[k] ==> !revision.Labels.has(k)
 //@     invariant [C17] relabelled: forall i int :: {oldRevisionList.Items[i]} 0 <= i && i < j ==> gRelabelled[oldRevisionList.Items[i].Name]
+
+// ---- hijacked watch (C20): sequential relay contract -----------------------------------------------------------
+// The relay goroutine's code is read sequentially: a receive, a send and a close are calls of the assumed
+// contracts below, whose ghost state records what came in and what went out.  "Every received event is handed
+// on before the next one is taken, once, with the same type and the equivalent object" then gives, by induction
+// over the loop, the same events in the same order.  Interleavings, blocking and goroutine leaks are NOT decided.
+//@ ghost global gInN int           -- events received from the source
+//@ ghost global gOutN int          -- events handed to the consumer
+//@ ghost global gLast watch.Event  -- the event received last
+//@ ghost global gSrcClosed bool    -- the source channel has been seen closed
+//@ ghost global gResClosed bool    -- the result channel has been closed
+//@ ghost global gSrcStops int      -- calls of source.Stop()
+//@ spec func convSrc(r *appsv1.StatefulSet) *asv1.StatefulSet   -- the Advanced object a built-in object was converted from
+
+//@ func ToBuiltinStatefulSet
+//@   trusted "json.Marshal of the Advanced type followed by json.Unmarshal into the built-in type (C19): assumed to return a fresh object that is the image of its argument"
+//@   results converted, err
+//@   requires sts != nil
+//@   ensures err == nil ==> converted != nil && fresh(converted) && convSrc(converted) == sts && converted.Name == sts.Name && converted.Namespace == sts.Namespace
+//@   ensures err != nil ==> errLocal(err)
+//@ func ToBuiltinStatefulSet@hijackWatch.receive
+//@   trusted "as ToBuiltinStatefulSet, and additionally assumed never to fail on an object delivered by the API (the 'conversion never fails' clause of C19, which this family cannot decide)"
+//@   results converted, err
+//@   requires sts != nil
+//@   ensures err == nil && converted != nil && fresh(converted) && convSrc(converted) == sts
+
+//@ extern k8s.io/apimachinery/pkg/watch:Interface.Stop@hijackWatch.Stop
+//@   modifies gSrcStops
+//@   ensures gSrcStops == old(gSrcStops) + 1
+//@ extern chan:recv@hijackWatch.receive
+//@   params ch
+//@   results ev, ok
+//@   requires [C20] nopending: gOutN == gInN
+//@   modifies gInN, gLast, gSrcClosed
+//@   ensures ok ==> gInN == old(gInN) + 1 && gLast == ev && !gSrcClosed
+//@   ensures !ok ==> gInN == old(gInN) && gSrcClosed
+//@   ensures typeIs(ev.Object, "*asv1.StatefulSet") ==> asRef(ev.Object, "*asv1.StatefulSet") != nil
+//@ extern chan:send@hijackWatch.receive
+//@   params ch, v
+//@   requires [C20] open: !gResClosed
+//@   requires [C20] inorder: gOutN + 1 == gInN
+//@   requires [C20] sametype: v.Type == gLast.Type
+//@   requires [C20] equivalent: typeIs(gLast.Object, "*asv1.StatefulSet") ==> typeIs(v.Object, "*appsv1.StatefulSet") && convSrc(asRef(v.Object, "*appsv1.StatefulSet")) == asRef(gLast.Object, "*asv1.StatefulSet")
+//@   requires [C20] errorsrelayed: !typeIs(gLast.Object, "*asv1.StatefulSet") ==> v.Object == gLast.Object
+//@   modifies gOutN
+//@   ensures gOutN == old(gOutN) + 1
+//@ extern chan:close@hijackWatch.receive
+//@   params ch
+//@   requires [C20] closeonce: !gResClosed
+//@   modifies gResClosed
+//@   ensures gResClosed
+
+//@ func hijackWatch.Stop
+//@   requires w != nil && w.source != nil
+//@   modifies w.stopped, gSrcStops
+//@   ensures [C20] stopped: w.stopped
+//@   ensures [C20] idempotent: gSrcStops == old(gSrcStops) + ite(old(w.stopped), 0, 1)
+
+//@ func hijackWatch.ResultChan
+//@   requires w != nil
+//@   ensures result == w.result
+
+//@ func hijackWatch.receive
+//@   requires w != nil && w.source != nil
+//@   requires gInN == gOutN && !gResClosed && !gSrcClosed
+//@   modifies w.stopped, gInN, gOutN, gLast, gSrcClosed, gResClosed, gSrcStops
+//@   ensures [C20] relayedall: gOutN == gInN
+//@   ensures [C20] shutdown: gSrcClosed && gResClosed && w.stopped
+//@   ensures [C20] stoppedonce: gSrcStops == old(gSrcStops) + ite(old(w.stopped), 0, 1)
+//@   loop 1 "for" 
+//@     invariant gOutN == gInN && !gResClosed && !gSrcClosed
+//@     invariant w.stopped == old(w.stopped) && gSrcStops == old(gSrcStops)
